@@ -778,18 +778,24 @@ func ruleBinOpIterators(r *Run) {
 	} else {
 		var leftLoad ssa.Value
 		var opCall *ssa.Call
-		allInstrs(lf, func(in ssa.Instruction) {
-			switch x := in.(type) {
-			case *ssa.UnOp:
-				if f, base, ok := loadOfField(x); ok && f == "left" && base == ssa.Value(lf.Params[0]) {
-					leftLoad = x
+		lgrp := funcGroup(lf)
+		isRecv := func(base ssa.Value) bool {
+			return base == ssa.Value(lf.Params[0]) || originValueIn(base, lgrp) == ssa.Value(lf.Params[0])
+		}
+		for _, gf := range lgrp {
+			allInstrs(gf, func(in ssa.Instruction) {
+				switch x := in.(type) {
+				case *ssa.UnOp:
+					if f, base, ok := loadOfField(x); ok && f == "left" && isRecv(base) {
+						leftLoad = x
+					}
+				case *ssa.Call:
+					if f, base, ok := loadOfField(x.Call.Value); ok && f == "op" && isRecv(base) {
+						opCall = x
+					}
 				}
-			case *ssa.Call:
-				if f, base, ok := loadOfField(x.Call.Value); ok && f == "op" && base == ssa.Value(lf.Params[0]) {
-					opCall = x
-				}
-			}
-		})
+			})
+		}
 		if leftLoad == nil || opCall == nil {
 			ol.Fail(r.pos(lf.Pos()), "i.left test=%v op call=%v", leftLoad != nil, opCall != nil)
 		} else {
@@ -797,11 +803,14 @@ func ruleBinOpIterators(r *Run) {
 				// a load of a Sample literal whose Data is i.value
 				u, ok := v.(*ssa.UnOp)
 				if !ok {
-					return false, false
+					_, isPrm := v.(*ssa.Parameter)
+					return false, isPrm
 				}
 				al, ok := u.X.(*ssa.Alloc)
 				if !ok {
-					return false, false
+					// an element of the step's samples (or another loaded sample): not the literal
+					_, isElem := u.X.(*ssa.IndexAddr)
+					return false, isElem
 				}
 				fs := allocFieldStores(al)
 				d, ok := fs["Data"]
@@ -809,11 +818,11 @@ func ruleBinOpIterators(r *Run) {
 					return false, true
 				}
 				f, base, ok := loadOfField(d)
-				return ok && f == "value" && base == ssa.Value(lf.Params[0]), true
+				return ok && f == "value" && isRecv(base), true
 			}
 			bad := false
 			for _, left := range []bool{false, true} {
-				w := &feWalker{Fn: lf, Assume: map[ssa.Value]constant.Value{leftLoad: constant.MakeBool(left)}}
+				w := &feWalker{Fn: lf, Assume: map[ssa.Value]constant.Value{leftLoad: constant.MakeBool(left)}, Inline: inlineHelpers(lf)}
 				seen := false
 				for _, e := range w.Run() {
 					for _, c := range e.State.calls {
